@@ -21,7 +21,32 @@ namespace Obao.Revoke
 structure TokEntry where
   parent : Option Nat
   marked : Bool          -- NumUses = tokenRevocationPending (-3)
+  cubId : Bool := true   -- the entry carries a CubbyholeID (its value is private to the token: `CubKey.cid t`)
+  pfx : Bool := true     -- the token id starts with the service prefix (`hvs.` / `s.`): false for caller-chosen ids
+  nsRoot : Bool := true  -- the token lives in the root namespace
   deriving DecidableEq, Repr, Inhabited
+
+/-- the two places a token's cubbyhole data can live under the cubbyhole mount -/
+inductive CubKey where
+  | cid (t : Nat)        -- <CubbyholeID of t>/
+  | salted (t : Nat)     -- <view-salt(token-store-salt(id of t))>/  (the doubly salted token id)
+  deriving DecidableEq, Repr
+
+/-- `TokenStore.create`: which tokens get a CubbyholeID -/
+def createCubId (nsRoot pfx : Bool) : Bool := !nsRoot || pfx
+
+/-- `routing/router.go`: the storage prefix a cubbyhole REQUEST of token `t` is routed to -/
+def routerKey (t : Nat) (e : TokEntry) : Option CubKey :=
+  if e.nsRoot && !e.pfx then some (.salted t)          -- root namespace, no service prefix: double-salt the token
+  else if e.cubId then some (.cid t) else none          -- "empty cubbyhole id"
+
+/-- `destroyCubbyhole` (token_store.go): the storage prefix a REVOCATION of token `t` clears -/
+def destroyKey (t : Nat) (e : TokEntry) : Option CubKey :=
+  if e.nsRoot && !e.pfx then some (.salted t)          -- `NamespaceID == root && !IsServiceToken(te.ID)`
+  else if e.cubId then some (.cid t) else none          -- "missing cubbyhole ID while destroying"
+
+/-- total version of the two rules for entries written by `create` -/
+def ckey (t : Nat) (e : TokEntry) : CubKey := if e.nsRoot && !e.pfx then .salted t else .cid t
 
 inductive Key where
   | id (t : Nat)         -- sys/token/id/<salted t>
@@ -31,11 +56,11 @@ inductive Key where
   | tl (t : Nat)         -- sys/expire/id/auth/token/create[-orphan]/<salted t>   (the token's own lease)
   | sl (l : Nat)         -- sys/expire/id/<mount>/lease/...    (a secret lease)
   | tix (t l : Nat)      -- sys/expire/token/<salted t>/<salted lease id>
-  | cub (t k : Nat)      -- logical/<cubbyhole mount>/<cubbyhole id of t>/k<k>
+  | cub (c : CubKey) (k : Nat)   -- logical/<cubbyhole mount>/<c>/k<k>
   deriving DecidableEq, Repr
 
 inductive Pfx where
-  | par (p : Nat) | tix (t : Nat) | cub (t : Nat)
+  | par (p : Nat) | tix (t : Nat) | cub (c : CubKey)
   deriving DecidableEq, Repr
 
 /-- key of the in-memory `tokensPendingDeletion` map -/
@@ -58,6 +83,7 @@ inductive Op where
   | cacheGet (t : Nat)                       -- ExpirationManager.fetchCachedLease for t's own lease
   | cacheSet (t : Nat) (v : Option Bool)     -- updatePending / removeFromPending
   | newTok (skey : Nat)
+  | allocId (x : Nat) (skey : Nat)           -- caller-chosen id: first use allocates ordinal `x = next`
   | newLease (lkey : Nat)
   deriving DecidableEq, Repr
 
@@ -89,7 +115,7 @@ structure St where
   tl : Nat → Option Bool           -- some expired?
   sl : Nat → Option (Nat × Bool)   -- (issuing token, expired?)
   tix : Nat → Nat → Bool
-  cub : Nat → Nat → Bool
+  cub : CubKey → Nat → Bool
   cache : Nat → Option Bool
   pend : PKey → Option Bool
   skey : Nat → Nat
@@ -113,7 +139,7 @@ def sortBy (f : Nat → Nat) : List Nat → List Nat
 
 def St.children (s : St) (p : Nat) : List Nat := sortBy s.skey ((List.range s.next).filter (s.par p))
 def St.leasesOf (s : St) (t : Nat) : List Nat := sortBy s.lkey ((List.range s.nextL).filter (s.tix t))
-def St.cubKeys (s : St) (t : Nat) : List Nat := (List.range s.kmax).filter (s.cub t)
+def St.cubKeys (s : St) (t : CubKey) : List Nat := (List.range s.kmax).filter (s.cub t)
 
 def St.getKey (s : St) : Key → Option Payload
   | .id t => (s.ids t).map .tok
@@ -164,6 +190,9 @@ def exec (o : Op) (s : St) : St × Val :=
   | .cacheGet t => (s, .cache (s.cache t))
   | .cacheSet t v => ({ s with cache := fun x => if x = t then v else s.cache x }, .unit)
   | .newTok sk => ({ s with next := s.next + 1, skey := fun x => if x = s.next then sk else s.skey x }, .fresh s.next)
+  | .allocId x sk =>
+    if x = s.next then ({ s with next := s.next + 1, skey := fun y => if y = s.next then sk else s.skey y }, .fresh x)
+    else (s, .fresh x)
   | .newLease lk => ({ s with nextL := s.nextL + 1, lkey := fun x => if x = s.nextL then lk else s.lkey x }, .fresh s.nextL)
 
 /-! ### programs -/
@@ -232,6 +261,7 @@ def pendDel (k : PKey) : Prog Unit := .io (.pendDel k) fun _ => pure ()
 def cacheGet (t : Nat) : Prog (Option Bool) := .io (.cacheGet t) fun | .cache v => pure v | _ => fail .bad
 def cacheSet (t : Nat) (v : Option Bool) : Prog Unit := .io (.cacheSet t v) fun _ => pure ()
 def newTok (sk : Nat) : Prog Nat := .io (.newTok sk) fun | .fresh n => pure n | _ => fail .bad
+def allocId (x sk : Nat) : Prog Nat := .io (.allocId x sk) fun | .fresh n => pure n | _ => fail .bad
 def newLease (lk : Nat) : Prog Nat := .io (.newLease lk) fun | .fresh n => pure n | _ => fail .bad
 
 def forM' : List Nat → (Nat → Prog Unit) → Prog Unit
@@ -240,7 +270,7 @@ def forM' : List Nat → (Nat → Prog Unit) → Prog Unit
 
 /-- `logical.ClearView` on the token's cubbyhole sub-view (flat keys): `CountKeys` scans (one page, plus the
 terminating empty page when there were keys), then the deleting scan does the same and deletes each key. -/
-def cubDestroy (t : Nat) : Prog Unit := do
+def cubDestroy (t : CubKey) : Prog Unit := do
   let ks ← listPfx (.cub t)
   if !ks.isEmpty then let _ ← listPfx (.cub t)
   let ks2 ← listPfx (.cub t)
@@ -292,7 +322,9 @@ def riMark (t : Nat) (e : TokEntry) : Prog Unit :=
 
 /-- `revokeInternal`, the part guarded by the deferred function; `ol` is the orphaning loop -/
 def riBody (t : Nat) (e : TokEntry) (skipOrphan : Bool) (ol : List Nat → Prog Unit) : Prog Unit := do
-  cubDestroy t
+  match destroyKey t e with
+  | some c => cubDestroy c
+  | none => fail .storage                     -- "missing cubbyhole ID while destroying"
   revokeByToken t
   match e.parent with
   | some p => delKey (.par p t)
@@ -420,6 +452,15 @@ def auth (f : Nat) (r : Nat) : Prog Unit := do
     | none => fail .denied
     | some _ => pure ()
 
+/-- `auth` handing the cached token entry of the request to the router (`req.TokenEntry()`) -/
+def authE (f : Nat) (r : Nat) : Prog TokEntry := do
+  match ← lookup f r false with
+  | some e => pure e
+  | none =>
+    match ← lookup f r false with
+    | none => fail .denied
+    | some e => pure e
+
 /-- `SudoPrivilege(path, token)`: looks the token up again; an error or a missing token means "not sudo" (the
 policies of the harness grant sudo on every path used) -/
 def sudoCheck (f : Nat) (r : Nat) : Prog Bool :=
@@ -430,7 +471,9 @@ def sudoCheck (f : Nat) (r : Nat) : Prog Bool :=
 inductive Req where
   | create (r : Nat) (orphan : Bool) (skey : Nat)
   | renew (t : Nat)
+  | createId (r x : Nat) (skey : Nat)   -- auth/token/create with a caller-chosen `id` (identity `x`, possibly re-used)
   | cubby (t k : Nat)
+  | cubRead (t k : Nat)                 -- read cubbyhole/k<k>
   | lease (t lkey : Nat)
   | lookupSelf (t : Nat)
   | revoke (r t : Nat)          -- auth/token/revoke
@@ -441,12 +484,13 @@ inductive Req where
   deriving DecidableEq, Repr
 
 /-- `storeCommon(entry, writeSecondary = true)` followed by `RegisterAuth` -/
-def storeAndRegister (f : Nat) (r n : Nat) (orphan : Bool) : Prog Unit := do
+def storeAndRegister (f : Nat) (r n : Nat) (orphan : Bool) (pfx : Bool := true) : Prog Unit := do
   if !orphan then do
     match ← lookup f r false with
     | none => fail .invalid                     -- "parent token not found"
     | some _ => putKey (.par r n) .unit
-  putKey (.id n) (.tok { parent := if orphan then none else some r, marked := false })
+  putKey (.id n) (.tok { parent := if orphan then none else some r, marked := false,
+                         cubId := createCubId true pfx, pfx := pfx, nsRoot := true })
   putKey (.tl n) (.tl false)
   cacheSet n (some false)
 
@@ -468,10 +512,35 @@ def Req.prog (f : Nat) : Req → Prog Unit
     let _ ← lookup f t false
     putKey (.tl t) (.tl false)
     cacheSet t (some false)
+  | .createId r x sk => do
+    auth f r
+    match ← lookup f r false with     -- handleCreateCommon: parent lookup
+    | none => fail .invalid
+    | some _ => pure ()
+    let sudo ← sudoCheck f r
+    if !sudo then fail .invalid       -- "root or sudo privileges required to specify token id"
+    let n ← allocId x sk
+    -- create: `exist, _ := lookupInternal(id, tainted)`: a stored entry with this id refuses the creation
+    let dup ← (lookup f n true).bindE fun
+      | .ok (some _) => pure true
+      | _ => pure false
+    if dup then fail .invalid         -- "cannot create a token with a duplicate ID"
+    putKey (.acc n) .unit
+    storeAndRegister f r n false false
   | .cubby t k => do
-    auth f t
-    let _ ← getKey (.cub t k)
-    putKey (.cub t k) .unit
+    let e ← authE f t
+    match routerKey t e with
+    | none => fail .storage           -- "empty cubbyhole id"
+    | some c => do
+      let _ ← getKey (.cub c k)
+      putKey (.cub c k) .unit
+  | .cubRead t k => do
+    let e ← authE f t
+    match routerKey t e with
+    | none => fail .storage
+    | some c => do
+      let _ ← getKey (.cub c k)
+      pure ()
   | .lease t lk => do
     auth f t
     let l ← newLease lk
@@ -636,11 +705,37 @@ def Req.rootFree : Req → Prop
   | .revokeAcc _ t => t ≠ 0
   | .revokeLease _ t => t ≠ 0
   | .revokeOrphan _ t => t ≠ 0
+  | .createId _ x _ => x ≠ 0
   | _ => True
 
 def HStep.rootFree : HStep → Prop
   | .req q => q.rootFree
   | .settle => True
+
+/-- the identity a request (re-)creates with a caller-chosen id -/
+def Req.recreates : Req → Option Nat
+  | .createId _ x _ => some x
+  | _ => none
+
+def HStep.recreates : HStep → Option Nat
+  | .req q => q.recreates
+  | .settle => none
+
+/-- side conditions of the history theorems, evaluated in the state the request runs in: revocation targets are
+not the root; a caller-chosen id `x` is the next fresh identity or one used before, its creator is older than the
+identity (`r < x`: the root, in the harness), and no parent-index entry is left under it (revoke-orphan leaves
+such entries behind — `Key.parTop` — and a re-created namesake would adopt the old token's orphans) -/
+def Req.okAt (s : St) : Req → Prop
+  | .createId r x _ => x ≠ 0 ∧ r < x ∧ x ≤ s.next ∧ ∀ c, s.par x c = false
+  | q => q.rootFree
+
+def HStep.okAt (s : St) : HStep → Prop
+  | .req q => q.okAt s
+  | .settle => True
+
+def HistOK (f : Nat) : List HStep → St → Prop
+  | [], _ => True
+  | st :: rest, s => st.okAt s ∧ HistOK f rest (st.apply f s)
 
 /-- `x` is `t` or one of its non-orphaned descendants: a chain of parent links of stored entries -/
 inductive Desc (s : St) (t : Nat) : Nat → Prop where
@@ -653,7 +748,7 @@ structure Dead (s : St) (x : Nat) : Prop where
   noEntry : s.ids x = none
   noLease : s.tl x = none
   noAcc : s.acc x = false
-  noCub : ∀ k, s.cub x k = false
+  noCub : ∀ k, s.cub (.cid x) k = false ∧ s.cub (.salted x) k = false
   leases : ∀ l e, s.sl l = some (x, e) → e = true
 
 /-- "the token can no longer be handed out by a plain lookup": its entry is marked or gone -/
